@@ -2438,7 +2438,8 @@ def rule_single_split(ctx, repo):
     ext = dict(M.make_externals(M.VFS()))
     ext["sklearn.model_selection.train_test_split"] = tts
     ext["sklearn.model_selection._split.train_test_split"] = tts
-    data = M.FrameV({"a": list("12345"), "b": list("12345"), "target": list("12345")})  # 5 rows, 3 columns
+    # 5 rows, 3 columns, row labels that are not the positions
+    data = M.FrameV({"a": list("12345"), "b": list("12345"), "target": list("12345")}, index=[10, 11, 12, 13, 14])
     try:
         it = Interp(repo, ext, M.to_float, M.str_hook)
         it.call_function(cls.module, init, [me], {k: v for k, v in opts.items() if k in astq.param_names(init, skip_self=True)})
